@@ -23,7 +23,7 @@ TReset == /\ IsEvent("reset")
           /\ mtime' = [f \in Files |-> 0] /\ lat' = [f \in Files |-> -1] /\ fsize' = [f \in Files |-> 0]
           /\ mapq' = <<>> /\ mlat' = [f \in Files |-> -1] /\ now' = R.cfg.now0 /\ cap' = R.cfg.cap
           /\ lastpass' = NoPass /\ own' = [f \in Files |-> TRUE]
-          /\ wb' = [f \in Files |-> "none"] /\ wbdone' = [f \in Files |-> FALSE]
+          /\ wb' = [f \in Files |-> <<>>] /\ wbdone' = [f \in Files |-> 0]
 
 TCreate  == IsEvent("Create") /\ R.res = CreateRes(R.f) /\ Lift(Create(R.f, R.size, R.mtime)) /\ ObsOK
 TStat    == IsEvent("Stat") /\ <<R.res, R.size, R.mtime>> = StatRes(R.f) /\ Lift(Peek(R.f)) /\ ObsOK
@@ -54,9 +54,8 @@ TCleanup == /\ IsEvent("Cleanup")
 TAggro   == IsEvent("Aggro") /\ R.res = Aggro(R.c, R.util) /\ UNCHANGED cvars
 TForce   == /\ IsEvent("ForcePass")
             /\ SetOf(R.deleted) = ForcePassRes(R.ord, R.ttl)
-            /\ ForcePass(R.ord, R.ttl) /\ ObsOK
-            /\ \A f \in Files : wbdone'[f] = R.done[f]
-TSetTask == IsEvent("SetTask") /\ SetTask(R.f, R.o)
+            /\ ForcePass(R.ord, R.ttl, [f \in Files |-> R.done[f]]) /\ ObsOK
+TSetTask == IsEvent("SetTask") /\ SetTask(R.f, R.ts)
 TSetOwn  == IsEvent("SetOwn") /\ SetOwn(R.f, R.b)
 
 TraceNext == \/ TReset \/ TCreate \/ TStat \/ TGetLat \/ TGetPer \/ TRead \/ TSetPer \/ TSetLat \/ TDelete
